@@ -142,6 +142,17 @@ def c17_c(ctx: Ctx):
             out.append(ctx.ok(R, av, tu[0], "a kept link is re-pointed whenever its resolved target differs from the job directory"))
         else:
             out.append(ctx.inc(R, av, tu[0], "to_update condition not recognised: " + t[:80]))
+    acfg = ctx.cfg(av)
+    tu_ids = {n.id for n in acfg.stmt_nodes() if isinstance(n.ast, ast.Assign) and any(isinstance(t, ast.Name) and t.id == "to_update" for t in n.ast.targets)
+              and isinstance(n.ast.value, (ast.ListComp, ast.SetComp, ast.GeneratorExp, ast.Call))}
+    for n in acfg.stmt_nodes():
+        if isinstance(n.ast, ast.Return):
+            w = acfg.must_pass_before(n.id, tu_ids, kinds="n")
+            if w is None and tu_ids:
+                out.append(ctx.ok(R, av, n.ast, "_analyze_view returns only after comparing the target of every kept link with its job directory"))
+            else:
+                out.append(ctx.viol(R, av, n.ast, "_analyze_view can return without comparing link targets (a short-cut on the set of link paths): when all paths survive but the jobs behind them "
+                                    "changed (re-keyed constant parameter, other selection with the same keys) dangling / wrong links are kept", witness=acfg.describe_path(w) if w else None))
     uv = ctx.fn(LV + ":_update_view")
     cfg = ctx.cfg(uv)
     unl = [n.id for n in cfg.stmt_nodes() if n.kind == "stmt" and any(isinstance(c, ast.Call) and common.ext_name(ctx, uv, c) in ("os.unlink", "os.rmdir", "os.remove") for c in walk_no_nested(n.ast))]
